@@ -142,6 +142,20 @@ func TestVerifCT(t *testing.T) {
 	_ = pubFixed
 	var sink byte
 
+	structuredU := [][]byte{}
+	for _, v := range []byte{9, 2, 1, 4} {
+		u := make([]byte, 32)
+		u[0] = v
+		structuredU = append(structuredU, u)
+	}
+	{
+		u := bytes.Repeat([]byte{0xff}, 32) // p - 2 (near the top of the field)
+		u[0], u[31] = 0xeb, 0x7f
+		structuredU = append(structuredU, u)
+		v := make([]byte, 32) // 2^254
+		v[31] = 0x40
+		structuredU = append(structuredU, v)
+	}
 	ops := []op{
 		{"ed25519.NewKeyFromSeed", false, func(s []byte) { sink ^= ed25519.NewKeyFromSeed(s[:32])[40] }},
 		{"ed25519.Sign/pure", false, func(s []byte) { sink ^= ed25519.Sign(ed25519.NewKeyFromSeed(s[:32]), msg)[3] }},
@@ -183,6 +197,50 @@ func TestVerifCT(t *testing.T) {
 			sink ^= byte(o.Equal(&P))
 		}},
 		{"curve.MontgomeryPoint.Mul", false, func(s []byte) { var o curve.MontgomeryPoint; o.Mul(&mu, sc(s)); sink ^= o[0] }},
+		// structured PUBLIC operands (small, sparse, near p): intermediate values then sit at carry boundaries that a
+		// random-looking point never reaches
+		{"curve.MontgomeryPoint.Mul/structured-u", false, func(s []byte) {
+			for _, u := range structuredU {
+				var o, in curve.MontgomeryPoint
+				copy(in[:], u)
+				o.Mul(&in, sc(s))
+				sink ^= o[0]
+			}
+		}},
+		{"x25519.X25519/structured-u", false, func(s []byte) {
+			for _, u := range structuredU {
+				o, _ := x25519.X25519(s[:32], append([]byte(nil), u...))
+				if o != nil {
+					sink ^= o[0]
+				}
+			}
+		}},
+		{"curve.EdwardsPoint.Mul/torsion-and-small", false, func(s []byte) {
+			for _, pt := range []*curve.EdwardsPoint{curve.EIGHT_TORSION[1], curve.EIGHT_TORSION[4], curve.ED25519_BASEPOINT_POINT} {
+				var o curve.EdwardsPoint
+				o.Mul(pt, sc(s))
+				sink ^= byte(o.Equal(&P))
+			}
+		}},
+		// many terms: the constant-time routine must stay constant time beyond the size thresholds of its variable-time sibling
+		{"big/curve.EdwardsPoint.MultiscalarMul/200", false, func(s []byte) {
+			var ss []*scalar.Scalar
+			var ps []*curve.EdwardsPoint
+			for i := 0; i < 200; i++ {
+				b := append([]byte(nil), s[:32]...)
+				b[i%32] ^= byte(i)
+				ss = append(ss, sc(b))
+				if i%2 == 0 {
+					ps = append(ps, &P)
+				} else {
+					ps = append(ps, &Q)
+				}
+			}
+			var o curve.EdwardsPoint
+			verifobs.Start()
+			o.MultiscalarMul(ss, ps)
+			sink ^= byte(o.Equal(&P))
+		}},
 		{"curve.RistrettoPoint.Mul", false, func(s []byte) {
 			var o curve.RistrettoPoint
 			o.Mul(curve.RISTRETTO_BASEPOINT_POINT, sc(s))
